@@ -7,10 +7,10 @@ from harness import tlc
 C09_INV = ["TypeOK", "UniqueIds", "NoCrossTalk", "IdBound", "NoIdExhaustion", "Accounting", "Recycled"]
 C10_INV = ["FailedOnce", "AllFailed"]
 C10_PROPS = ["NothingAfterDeath", "SendRefusedWhenDead"]
-WITNESSES = {"C09": ["Witness_LateResponse", "Witness_Grow"],
-             "C10": ["Witness_ErroredTwoAtOnce", "Witness_Refused"]}
+WITNESSES = {"C09": ["Witness_LateResponse", "Witness_Grow", "Witness_SessionOpen"],
+             "C10": ["Witness_ErroredTwoAtOnce", "Witness_Refused", "Witness_SessionFailed"]}
 
-C10_VARS = {"errs", "defunct", "closed"}
+C10_VARS = {"errs", "cperr", "defunct", "closed"}
 DEATH_ACTIONS = {"SocketError", "Close"}
 
 
@@ -29,10 +29,47 @@ def owner_of(divergence, dead_before):
     return "C09"
 
 
+def close_fails_sessions(rc):
+    """Direct probe on the real objects: does an explicit close() fail an open continuous-paging session?"""
+    h = rc.ConnHarness(2, 1, {1}, {1})
+    try:
+        h.act_Borrow(1, -1)
+        h.act_Send(1, -1)
+        h._page(h._rid[1], False)
+        h.conn.close()
+        return h.project()["cperr"][1] >= 1
+    finally:
+        h.shutdown()
+
+
 def run(ctx, pid):
     from harness.replay import connection as rc
-    consts = {"MaxId": 2, "InitFree": 1, "Reqs": {1, 2, 3}}
+    consts = {"MaxId": 2, "InitFree": 1, "Reqs": {1, 2, 3}, "CPReqs": {3}, "MaxPages": 2, "CloseFailsSessions": True}
     inv = C09_INV + C10_INV
+    # the intended design (close() fails paging sessions too) must satisfy the properties
+    icfg = tlc.write_cfg(os.path.join(ctx.scratch, "conn_intended.cfg"), constants=consts, invariants=inv,
+                         properties=C10_PROPS, deadlock=False)
+    ires = tlc.check_model("Connection", icfg, ctx.scratch, timeout=900)
+    ctx.add_tlc(ires, "exhaustive, intended design (CloseFailsSessions)")
+    if ires.violation:
+        own = "C09" if ires.invariant in C09_INV else "C10"
+        if own == pid:
+            ctx.violation("TLC: %s violated on Connection.tla" % ires.invariant,
+                          replay={"trace": [dict(s.get("act", {})) for _, s in ires.trace()]}, signature="spec:%s" % ires.invariant)
+        return
+    try:
+        intended = close_fails_sessions(rc)
+    except Exception as ex:
+        intended = False
+        if pid == "C10":
+            ctx.violation("probe of close() with an open paging session failed: %s: %s" % (type(ex).__name__, ex),
+                          replay={"probe": "close-with-open-session"}, signature="Close:probe-exception")
+    if not intended and pid == "C10":
+        ctx.violation("an explicit close() of a healthy connection does not fail an open continuous-paging session "
+                      "(its consumer waits forever); only defunct() calls error_all_cp_sessions",
+                      replay={"probe": "close-with-open-session"}, signature="Close:open-cp-session-not-failed")
+    ctx.note("code_follows_CloseFailsSessions", intended)
+    consts["CloseFailsSessions"] = intended          # the model the code is bound to (deviation named in the spec)
     mine_inv = C09_INV if pid == "C09" else C10_INV
     cfg = tlc.write_cfg(os.path.join(ctx.scratch, "conn.cfg"), constants=consts, invariants=inv,
                         properties=C10_PROPS, deadlock=False)
@@ -47,7 +84,7 @@ def run(ctx, pid):
                           signature="spec:%s" % res.invariant)
         return
     cov = res.coverage()
-    zero = [a for a in ("Borrow", "Send", "Respond", "Timeout", "FailAll") if a in cov and cov[a][1] == 0]
+    zero = [a for a in ("Borrow", "Send", "Respond", "RespondPage", "Timeout", "FailAll") if a in cov and cov[a][1] == 0]
     if zero:
         raise tlc.MachineryError("actions never taken in the exhaustive model: %s" % zero)
     ctx.note("coverage_zero_actions", zero)
@@ -59,7 +96,7 @@ def run(ctx, pid):
     ctx.note("vacuity_witnesses_reached", len(WITNESSES[pid]))
 
     if not ctx.quick:
-        big = {"MaxId": 3, "InitFree": 2, "Reqs": {1, 2, 3, 4}}
+        big = {"MaxId": 3, "InitFree": 2, "Reqs": {1, 2, 3, 4}, "CPReqs": {3, 4}, "MaxPages": 2, "CloseFailsSessions": intended}
         bcfg = tlc.write_cfg(os.path.join(ctx.scratch, "conn_big.cfg"), constants=big, invariants=inv,
                              properties=C10_PROPS, deadlock=False)
         bres = tlc.check_model("Connection", bcfg, ctx.scratch, timeout=3000)
@@ -73,8 +110,8 @@ def run(ctx, pid):
             return
 
     # ---- spec -> code: replay walks covering every edge of the exhaustive graph
-    max_walks = 7000 if ctx.quick else 30000
-    walks = tlc.graph_walks(nodes, edges, init, rng=ctx.rng, max_walks=max_walks, max_len=30)
+    walks = tlc.graph_walks(nodes, edges, init, rng=ctx.rng, max_walks=100000, max_len=30,
+                            random_walks=200 if ctx.quick else 20000)
     covered = set()
     for w in walks:
         covered.update(zip(w, w[1:]))
@@ -84,11 +121,13 @@ def run(ctx, pid):
     replayed = 0
     for w in walks:
         states = [nodes[n] for n in w]
-        d = rc.replay(consts, states)
+        # handlers of some requests raise when errored (the connection must isolate that); vary the set per walk
+        raisers = [(), (1,), (2, 3), (1, 2, 3)][replayed % 4]
+        d = rc.replay(consts, states, raisers)
         replayed += 1
         acts = [dict(s["act"]) for s in states[1:]]
         names = [a["name"] for a in acts]
-        if any(n in ("Timeout", "RespondLate", "SocketError", "Close") for n in names):
+        if any(n in ("Timeout", "RespondLate", "SocketError", "Close", "FirstPage", "Page") for n in names):
             ctx.nontrivial(tuple((a["name"], a["r"], a["id"]) for a in acts))
         if replayed % 500 == 1:
             ctx.sample({"direction": "spec->code", "actions": acts})
@@ -97,14 +136,16 @@ def run(ctx, pid):
             dead_before = step > 0 and (states[step - 1]["defunct"] or states[step - 1]["closed"])
             if owner_of(d, dead_before) == pid:
                 ctx.violation("replay diverges at step %d (%s): %s" % (step, d["action"], d["diff"]),
-                              replay={"constants": consts, "actions": acts[:step], "divergence": d},
+                              replay={"constants": consts, "actions": acts[:step], "divergence": d, "raisers": list(raisers)},
                               signature="replay:%s:%s" % (d["action"]["name"] if isinstance(d["action"], dict) else d["action"],
                                                           ",".join(sorted(d["diff"]))))
     ctx.traces_validated += replayed
     ctx.note("behaviours_replayed", replayed)
 
     # ---- code -> spec: recorded random runs validated by TLC against Trace_Connection.tla
-    tconsts = {"MaxId": 2, "InitFree": 1, "Reqs": {1, 2, 3, 4}} if ctx.quick else {"MaxId": 3, "InitFree": 2, "Reqs": {1, 2, 3, 4, 5}}
+    tconsts = {"MaxId": 3, "InitFree": 1, "Reqs": {1, 2, 3, 4}, "CPReqs": {4}, "MaxPages": 3} if ctx.quick else \
+        {"MaxId": 3, "InitFree": 2, "Reqs": {1, 2, 3, 4, 5}, "CPReqs": {2, 4}, "MaxPages": 3}
+    tconsts["CloseFailsSessions"] = intended
     n_tr = 300 if ctx.quick else 4000
     traces = [rc.record(tconsts, ctx.rng, max_events=40) for _ in range(n_tr)]
     good = len(traces)
@@ -159,7 +200,7 @@ def replay(ctx, pid, obj):
     consts = obj["constants"]
     consts["Reqs"] = set(consts["Reqs"])
     if "actions" in obj:
-        h = rc.ConnHarness(consts["MaxId"], consts["InitFree"], consts["Reqs"])
+        h = rc.ConnHarness(consts["MaxId"], consts["InitFree"], consts["Reqs"], consts.get("CPReqs", ()), obj.get("raisers", ()))
         for a in obj["actions"] + ([obj["divergence"]["action"]] if obj.get("divergence") else []):
             print("->", a)
             h.do(a)
